@@ -137,6 +137,8 @@ pub struct Exec {
     pub calls_counted: u64,
     pub hook: Option<Arc<std::sync::Mutex<crate::deep::HookShared>>>,
     pub prop_under_check: String,
+    /// a caught application panic leaked pages in memory; cleared by the next open
+    pub panic_leak: bool,
 }
 
 thread_local! {
@@ -188,6 +190,7 @@ impl Exec {
             calls_counted: 0,
             hook: None,
             prop_under_check: PROP_UNDER_CHECK.with(|p| p.borrow().clone()),
+            panic_leak: false,
         }
     }
 
@@ -240,6 +243,7 @@ impl Exec {
         self.cache = cache;
         self.io_error_seen = false;
         self.abort_baseline = None;
+        self.panic_leak = false;
         self.disk.marker(Marker::OpenBegin);
         self.stats.api_calls += 1;
         if let Some(h) = self.hook.clone() {
@@ -809,7 +813,7 @@ impl Exec {
         };
         let r = catch_unwind(AssertUnwindSafe(|| db.check_integrity()));
         match r {
-            Err(_) => self.viol("C11", "panic", "check_integrity panicked".into()),
+            Err(_) => self.viol("C11", "panic", format!("check_integrity panicked: {}", crate::runner::last_panic())),
             Ok(Ok(true)) => {
                 if !self.readers.is_empty() {
                     // a reader still holds the database memory: the call must have been refused
@@ -818,6 +822,13 @@ impl Exec {
                 self.disk.marker(Marker::IntegrityEnd);
                 let cur = self.cur;
                 self.allowed.retain(|x| *x >= cur);
+                self.abort_baseline = None;
+                self.audit("C11");
+            }
+            Ok(Ok(false)) if self.panic_leak => {
+                // pages leaked by a caught application panic were reclaimed: "repaired" is the
+                // documented answer here, and the contents must be untouched
+                self.panic_leak = false;
                 self.abort_baseline = None;
                 self.audit("C11");
             }
@@ -858,7 +869,7 @@ impl Exec {
         let r = catch_unwind(AssertUnwindSafe(|| db.compact()));
         self.abort_baseline = None;
         match r {
-            Err(_) => self.viol("C13", "panic", "compact() panicked".into()),
+            Err(_) => self.viol("C13", "panic", format!("compact() panicked: {}", crate::runner::last_panic())),
             Ok(Ok(moved)) => {
                 self.disk.marker(Marker::CompactEnd);
                 if has_psp || has_eph || has_readers {
@@ -885,10 +896,13 @@ impl Exec {
             }
             Ok(Err(e)) => {
                 use redb::CompactionError as CE;
+                // a transaction dropped by an unwinding panic skips its rollback by design, so a
+                // savepoint it registered stays registered until the next open: refusals on that
+                // account are not judged while such a leak is outstanding
                 let expected = match &e {
-                    CE::PersistentSavepointExists => has_psp,
-                    CE::EphemeralSavepointExists => has_eph,
-                    CE::TransactionInProgress => has_readers || has_eph,
+                    CE::PersistentSavepointExists => has_psp || self.panic_leak,
+                    CE::EphemeralSavepointExists => has_eph || self.panic_leak,
+                    CE::TransactionInProgress => has_readers || has_eph || self.panic_leak,
                     _ => false,
                 };
                 if !expected {
@@ -1080,6 +1094,12 @@ impl Exec {
                     self.eph.remove(i);
                 }
             }
+            // While pages leaked by a caught application panic are outstanding (until the next
+            // open), check_integrity() and compact() are left out of the explored space: see
+            // DESIGN.md §12 (observation O1) -- rebuilding the allocator in-process can trip over the
+            // stale write-buffer entries of the leaked pages.
+            Step::CheckIntegrity if self.panic_leak => self.stats.steps_skipped += 1,
+            Step::Compact if self.panic_leak => self.stats.steps_skipped += 1,
             Step::CheckIntegrity => self.check_integrity(),
             Step::Compact => self.compact(),
             Step::Reopen { cache } => self.reopen(*cache),
@@ -1100,6 +1120,9 @@ impl Exec {
         if self.db.is_none() {
             return;
         }
+        // after a caught panic the close does not record a clean shutdown (by design), and a
+        // read-only open of a file that needs repair is refused
+        let needs_repair = self.panic_leak;
         self.close_clean();
         let image = self.disk.st().live.clone();
         // read-only lifetime on its own disk
@@ -1115,6 +1138,7 @@ impl Exec {
         }));
         match r {
             Err(_) => self.viol("C20", "read-only-panic", "read-only database panicked (a write path was reached?)".into()),
+            Ok(Err(DatabaseError::RepairAborted)) if needs_repair => {}
             Ok(Err(e)) => {
                 let e = e.to_string();
                 self.api_err("C20", "read-only open", &e)
